@@ -411,8 +411,39 @@ class StmtMixin:
             raise Untranslatable(f"while loop #{ordinal} at line {s.lineno} has no invariant")
         return self.loop_generic(s, st, fr, inv, ordinal, kind="while")
 
+    def body_mutates_iterable(self, s):
+        """`for x in E:` is translated as an iteration over the value E had at loop entry (S5).  Python agrees only if the body does
+        not change the container E names while it is being iterated: `for c in self.types: self.remove(c)` skips elements.
+        -> description of the mutation site, or None.  Only alias iterables (a name / an attribute) are concerned: a call, a slice or a
+        display makes a fresh container."""
+        from .apply import MUTATORS
+        it = s.iter
+        if not isinstance(it, (ast.Name, ast.Attribute)):
+            return None
+        txt = ast.unparse(it)
+        for b in s.body:
+            for n in ast.walk(b):
+                if isinstance(n, ast.Call) and isinstance(n.func, ast.Attribute):
+                    if ast.unparse(n.func.value) == txt and n.func.attr in MUTATORS:
+                        return f"line {n.lineno}: {ast.unparse(n)[:60]}"
+                    # a contracted method of the same receiver that may modify the iterated attribute
+                    if isinstance(it, ast.Attribute) and ast.unparse(n.func.value) == ast.unparse(it.value):
+                        for key, c in self.side.contracts.items():
+                            if key.split("::")[-1].split(".")[-1] == n.func.attr and c.modifies and (it.attr in c.modifies or "*" in c.modifies):
+                                return f"line {n.lineno}: {ast.unparse(n)[:60]} (may modify .{it.attr})"
+                elif isinstance(n, (ast.Assign, ast.AugAssign, ast.Delete)):
+                    for t in (n.targets if not isinstance(n, ast.AugAssign) else [n.target]):
+                        if isinstance(t, ast.Subscript) and ast.unparse(t.value) == txt:
+                            return f"line {n.lineno}: {ast.unparse(n)[:60]}"
+                        if isinstance(n, ast.AugAssign) and ast.unparse(t) == txt:
+                            return f"line {n.lineno}: {ast.unparse(n)[:60]}"
+        return None
+
     def st_For(self, s, st, fr):
         ordinal = self.loop_counter(fr, s)
+        mut = self.body_mutates_iterable(s)
+        if mut is not None:
+            raise Untranslatable(f"for loop at line {s.lineno} iterates over {ast.unparse(s.iter)} while its body changes that container ({mut}): outside the translated subset (S5)")
         src = self.ev(s.iter, st, fr)
         # small python-level collections: unroll
         unroll = None
